@@ -11,6 +11,7 @@ import (
 	"os"
 	"os/exec"
 	"reflect"
+	"runtime"
 	"runtime/debug"
 	"sort"
 	"strings"
@@ -543,6 +544,11 @@ func (x *executor) doCall(ti, ci int, ctx *callCtx) {
 			for inName, outName := range call.Carry {
 				if t := ref.outObjs[outName]; t != nil {
 					in[inName] = t
+					if d, ok := t.(*tensor.Dense); ok && call.CarryBacking && !d.IsScalar() && !d.RequiresIterator() {
+						// the same memory under a new tensor object; the old object is let go
+						in[inName] = tensor.New(tensor.WithShape(d.Shape().Clone()...), tensor.WithBacking(d.Data()))
+						ref.outObjs[outName] = nil
+					}
 				} else {
 					res.Skipped = true
 					return
@@ -626,6 +632,60 @@ func (x *executor) doCall(ti, ci int, ctx *callCtx) {
 	}
 }
 
+// letGo: task ti has executed its calls [0, done); it drops every tensor no later call of its script will pass again.
+func (x *executor) letGo(ti, done int) {
+	calls := x.c.World.Tasks[ti].Calls
+	for cj := 0; cj < done && cj < len(x.results[ti]); cj++ {
+		r := &x.results[ti][cj]
+		all := false              // a later call re-uses this call's objects wholesale
+		keep := map[string]bool{} // output names a later piece carries
+		for ck := done; ck < len(calls); ck++ {
+			lc := &calls[ck]
+			if lc.RetryOf-1 == cj && lc.RetryOf > 0 {
+				all = true
+			}
+			if lc.Ref != cj {
+				continue
+			}
+			switch lc.Kind {
+			case KPiece:
+				for _, on := range lc.Carry {
+					keep[on] = true
+				}
+			default:
+				all = true
+			}
+		}
+		if all {
+			continue
+		}
+		r.inObjs = nil
+		for on := range r.outObjs {
+			if !keep[on] {
+				delete(r.outObjs, on)
+			}
+		}
+		if len(r.outObjs) == 0 {
+			r.outObjs = nil
+		}
+	}
+}
+
+// collectGarbage runs a full collection and gives the finalizers it queues the chance to run before the caller goes on.
+func collectGarbage() {
+	runtime.GC()
+	type sentinel struct{ _ [16]byte }
+	done := make(chan struct{})
+	s := &sentinel{}
+	runtime.SetFinalizer(s, func(*sentinel) { close(done) })
+	s = nil
+	runtime.GC()
+	select {
+	case <-done:
+	case <-time.After(20 * time.Millisecond):
+	}
+}
+
 // overwrite copies v into the memory of t (a caller re-using its buffer) when t is a plain dense tensor of v's
 // element type and shape; it reports whether it did.
 func overwrite(t tensor.Tensor, v *val.V) (done bool) {
@@ -705,6 +765,10 @@ func execute(c *Case, pol policy, attrib bool, checkState bool) *worldRun {
 			x.serial = ctxs[ti]
 			x.doCall(ti, next[ti], ctxs[ti])
 			next[ti]++
+			if c.World.Collect {
+				x.letGo(ti, next[ti])
+				collectGarbage()
+			}
 		}
 		x.serial = nil
 	} else {
@@ -755,7 +819,14 @@ func execute(c *Case, pol policy, attrib bool, checkState bool) *worldRun {
 	for ti := range x.results {
 		for ci := range x.results[ti] {
 			if r := &x.results[ti][ci]; r.outObjs != nil && !r.inputsEditedLater {
-				r.OutLate = snapAll(r.outObjs)
+				late := snapAll(r.outObjs)
+				// (tensors the caller has let go of in the meantime keep the value they had when they were returned)
+				for k, v := range r.Out {
+					if _, ok := late[k]; !ok {
+						late[k] = v
+					}
+				}
+				r.OutLate = late
 			}
 		}
 	}
